@@ -90,6 +90,7 @@ type burst struct {
 	rngCtr atomic.Uint64
 	execPanics atomic.Int64
 	emptyBulk  atomic.Pointer[string]
+	nilLoaderCalls atomic.Int64
 }
 
 func (b *burst) now() int64 { return int64(time.Since(b.base)) }
@@ -217,6 +218,8 @@ func errKind(err error) string {
 		return "error"
 	case strings.Contains(err.Error(), "loader panic (harness)"):
 		return "panic"
+	case strings.Contains(err.Error(), "nil pointer dereference"):
+		return "nilloader" // the panic of a call that was given no loader
 	}
 	return "other:" + err.Error()
 }
@@ -309,10 +312,20 @@ func (b *burst) worker(w int, rng *core.Rng) {
 					lc.Ret = b.now()
 				}
 			}()
+			// now and then the caller passes no loader at all (a nil interface): the call panics like a call whose
+			// loader panics - and like that one it must leave nothing behind that later calls would wait for
+			noLoader := core.Mix(cfg.Seed^uint64(w)<<20^uint64(round))%48 == 0
 			switch rng.Pick(kindW) {
 			case 0:
 				lc.Kind, lc.Keys = "Get", keys[:1]
 				lc.Call = b.now()
+				if noLoader {
+					lc.Kind = "Get(nil loader)"
+					b.nilLoaderCalls.Add(1)
+					b.cache.Get(ctx, keys[0], nil)
+					lc.Ret = b.now()
+					break
+				}
 				v, err := b.cache.Get(ctx, keys[0], ld)
 				lc.Ret = b.now()
 				lc.Val, lc.Err, lc.ErrID = v, errKind(err), errID(err)
@@ -327,6 +340,13 @@ func (b *burst) worker(w int, rng *core.Rng) {
 			case 1:
 				lc.Kind, lc.Keys = "BulkGet", keys
 				lc.Call = b.now()
+				if noLoader {
+					lc.Kind = "BulkGet(nil loader)"
+					b.nilLoaderCalls.Add(1)
+					b.cache.BulkGet(ctx, keys, nil)
+					lc.Ret = b.now()
+					break
+				}
 				m, err := b.cache.BulkGet(ctx, keys, ld)
 				lc.Ret = b.now()
 				lc.Res, lc.Err = m, errKind(err)
@@ -528,6 +548,14 @@ func (b *burst) judgeBurst() (violation string, overlaps int, waiters int) {
 					// that panic: the error may stem from the invocation for another key of the same task
 					for _, in := range b.invs {
 						if in.Out == loPanic && in.Enter <= c.Ret {
+							ok = true
+						}
+					}
+				}
+				if !ok && c.Err == "nilloader" {
+					// the call it joined was made without a loader (by this burst, before this call returned)
+					for _, nc := range b.calls {
+						if strings.Contains(nc.Kind, "nil loader") && nc.Call <= c.Ret {
 							ok = true
 						}
 					}
@@ -761,6 +789,7 @@ func RunC08(col *core.Collector, tier, variant string, seed uint64, shard, nshar
 		col.Count("explained_overlaps", int64(overlaps))
 		col.Count("calls_without_own_load", int64(waiters))
 		col.Count("executor_task_panics", b.execPanics.Load())
+		col.Count("calls_without_a_loader", b.nilLoaderCalls.Load())
 		for _, in := range b.invs {
 			col.Count("outcome."+[]string{"value", "error", "notfound", "panic"}[in.Out], 1)
 		}
